@@ -706,6 +706,9 @@ def run(ctx):
     ctx.floor("C07.R6", 1, "joined results of MTGraph::run")
     rule_r7(facts, ctx, rb)
     ctx.floor("C07.R7", 1, "work() in the MTGraph thread closure")
+    from . import c04
+    c04.rule_r10(facts, ctx, rule_id="C07.R8")       # a wait that never gives control back defeats the cancel poll
+    ctx.floor("C07.R8", 4, "timed stream waits (same rule as C04.R10)")
     rule_r5(facts, ctx)
     ctx.floor("C07.R5", 1, "CancellationToken::cancel stores true")
     from .. import controls
